@@ -162,8 +162,13 @@ func genC14(t *rapid.T) c14Case {
 		c.Tile = rapid.SampledFrom([]string{"00", "ff"}).Draw(t, "value")
 		c.TileKind = "constant"
 		c.NumByte = rapid.SampledFrom([]int{16, 39, 40, 1279, 1280}).Draw(t, "numbyte")
-		if rapid.Bool().Draw(t, "anylen") {
+		switch rapid.IntRange(0, 3).Draw(t, "lenclass") {
+		case 0:
 			c.NumByte = rapid.IntRange(16, 4096).Draw(t, "numbyte")
+		case 1: // large captures: pattern counts beyond 2^16 / 2^20
+			c.NumByte = rapid.SampledFrom([]int{65535, 65536, 65537, 70000, 131072, 1 << 20, 1<<20 + 1, 1 << 22}).Draw(t, "numbyte")
+		case 2:
+			c.NumByte = rapid.IntRange(4097, 1<<21).Draw(t, "numbyte")
 		}
 		return c
 	}
@@ -198,6 +203,9 @@ func TestC14Enum(t *testing.T) {
 		cases = append(cases, c14Case{Workflow: "period", Tile: fmt.Sprintf("%02x", v), TileKind: "constant", Both: true})
 	}
 	for n := envInt("VERIF_LO", 16); n <= envInt("VERIF_HI", 400); n++ {
+		cases = append(cases, c14Case{Workflow: "single", Tile: "00", TileKind: "constant", NumByte: n}, c14Case{Workflow: "single", Tile: "ff", TileKind: "constant", NumByte: n})
+	}
+	for _, n := range []int{65535, 65536, 65537, 131072, 1 << 20, 1 << 22, 1 << 24} {
 		cases = append(cases, c14Case{Workflow: "single", Tile: "00", TileKind: "constant", NumByte: n}, c14Case{Workflow: "single", Tile: "ff", TileKind: "constant", NumByte: n})
 	}
 	// the sparse tile that crashed the pinned tree (D1): one set bit at bit position 3 mod 4 of a 64-byte tile
